@@ -17,4 +17,5 @@ let table : (string * (Model.sx -> Model.sx)) list = [
   "trie", Model.check_trie;
   "evmarith", Model.check_evmarith;
   "evmapp", Model.check_evmapp;
+  "crash", Model.check_crash;
 ]
